@@ -12,6 +12,7 @@ PROP = dict(
         dict(module="MCCredentials", cfg="MCCredentials_mut_queryfirst.cfg", expect_violation="Holds", timeout=300),
         dict(module="MCCredentials", cfg="MCCredentials_mut_defaultalways.cfg", expect_violation="Holds", timeout=300),
         dict(module="MCCredentials", cfg="MCCredentials_mut_staticbeforeauth.cfg", expect_violation="Holds", timeout=300),
+        dict(module="MCCredentials", cfg="MCCredentials_mut_composebreak.cfg", expect_violation="Holds", timeout=300),
         # history on one Runtime: the configuration (default credential, Debug) is replaced between requests; the model's memory stays empty
         dict(module="MCCredentialsSession", cfg=dict(quick="MCCredentialsSession_quick.cfg", thorough="MCCredentialsSession_thorough.cfg"),
              timeout=dict(quick=600, thorough=3000)),
